@@ -239,6 +239,9 @@ func c11Docs(n int, reduced int, visit func(doc string) bool) {
 	if reduced >= 2 {
 		trails = []string{""}
 	}
+	if reduced >= 3 {
+		names = []string{"a", "p:a"}
+	}
 	per := len(names) * len(attrs) * len(leads) * len(trails)
 	gen.Shapes(n, 4, func(parent []int) bool {
 		kids := make([][]int, n)
@@ -334,7 +337,7 @@ func init() {
 			type plan struct{ n, reduced int }
 			plans := []plan{{1, 0}, {2, 0}, {3, 2}}
 			if !c.Quick() {
-				plans = []plan{{1, 0}, {2, 0}, {3, 1}, {4, 2}}
+				plans = []plan{{1, 0}, {2, 0}, {3, 1}, {4, 3}}
 			}
 			for _, pl := range plans {
 				stop := false
